@@ -33,6 +33,9 @@ class Oracle(BaseOracle):
                                 "outcome": outcome})
                 return
         self.stat("procedures_fingerprinted", len(self.live))
+        # crash points: re-run the event with SMTSolver.verify raising at its k-th call
+        if q is not None and self.unit.get("faults"):
+            self.fault_points(ev, q)
         # queries must be pure too
         if q is not None and self.unit.get("queries", True):
             try:
@@ -47,6 +50,68 @@ class Oracle(BaseOracle):
                     return
 
 
+class InjectedFault(Exception):
+    pass
+
+
+def _fault_points(self, ev, q):
+    from exo.rewrite import new_analysis_core as NAC
+    from vf import menus
+
+    orig = NAC.SMTSolver.verify
+    calls = {"n": 0, "at": None}
+
+    def counting(slf, e):
+        calls["n"] += 1
+        if calls["at"] is not None and calls["n"] == calls["at"]:
+            raise InjectedFault(f"injected at verify call {calls['at']}")
+        return orig(slf, e)
+
+    NAC.SMTSolver.verify = counting
+    try:
+        # count the calls of a clean run
+        calls["n"] = 0
+        try:
+            menus.apply_event(self.st.proc, ev, self.st.ns)
+        except Exception:
+            return
+        k = calls["n"]
+        self.stat("smt_calls_seen", k)
+        for at in range(1, min(k, 8) + 1):
+            calls["n"] = 0
+            calls["at"] = at
+            try:
+                menus.apply_event(self.st.proc, ev, self.st.ns)
+            except InjectedFault:
+                pass
+            except Exception:
+                pass
+            calls["at"] = None
+            self.stat("faults_injected")
+            for i, pr in enumerate(self.live):
+                if irx.fingerprint(pr._loopir_proc) != self.fps[i]:
+                    self.violation({"oracle": "purity", "kind": "mutated-after-injected-fault", "op": ev["op"], "seed": self.st.seed.name, "at": at},
+                                   {"event": ev, "which": pr.name(), "fault_at_call": at})
+                    return
+            # the same operation re-run without the fault must give the same result (no poisoned caches)
+            calls["n"] = 0
+            try:
+                q2 = menus.apply_event(self.st.proc, ev, self.st.ns)
+                if irx.canon(q2._loopir_proc) != irx.canon(q._loopir_proc):
+                    self.violation({"oracle": "purity", "kind": "result-differs-after-fault", "op": ev["op"], "seed": self.st.seed.name, "at": at},
+                                   {"event": ev, "fault_at_call": at, "clean": str(q), "after_fault": str(q2)})
+                    return
+            except Exception as ex:
+                self.violation({"oracle": "purity", "kind": "fails-after-fault", "op": ev["op"], "seed": self.st.seed.name, "at": at},
+                               {"event": ev, "fault_at_call": at, "exc": repr(ex)[:300]})
+                return
+    finally:
+        NAC.SMTSolver.verify = orig
+
+
+Oracle.fault_points = _fault_points
+
+
 def run(rep):
     tier = rep.tier
     names = seed_list(tier)
@@ -54,5 +119,5 @@ def run(rep):
         st = explore.explore(rep, names, "vf.checks.c07", tier, depth=1, root_parts=6, safe_only=False, include_unsafe=True)
     else:
         st = explore.explore(rep, names, "vf.checks.c07", tier, depth=2, root_parts=8, safe_only=False, include_unsafe=True,
-                             max_states_per_level=6000, time_budget_s=3000)
+                             max_states_per_level=3000, time_budget_s=3000, extra={"faults": True})
     fill_evidence(rep, st)
